@@ -5,15 +5,12 @@ use databroker::permissions::{PermissionError, Permissions};
 use std::convert::TryFrom;
 
 pub fn perms_from_scope(scope: String, exp: u64) -> Option<Permissions> {
-    Permissions::try_from(Claims {
-        sub: "s".into(),
-        iss: "i".into(),
-        aud: vec!["kuksa.val".into()],
-        iat: 0,
-        exp,
-        scope,
-    })
-    .ok()
+    // built through serde so that the harness does not depend on the exact field set of `Claims`
+    let claims: Claims = serde_json::from_value(serde_json::json!({
+        "sub": "s", "iss": "i", "aud": ["kuksa.val"], "iat": 0, "exp": exp, "scope": scope,
+    }))
+    .ok()?;
+    Permissions::try_from(claims).ok()
 }
 
 pub fn res_code(r: Result<(), PermissionError>) -> Tok {
